@@ -484,3 +484,12 @@ impl Handler<TransferDataRequest> for NamespaceActor {
         }
     }
 }
+
+#[cfg(rnacos_verif)]
+impl NamespaceActor {
+    /// verif hook: public constructor, identical to the crate-private `new`
+    /// (used by the /verif harness to build a mini node the way `starter::config_factory` does).
+    pub fn verif_new(raft_node_id: u64) -> Self {
+        Self::new(raft_node_id)
+    }
+}
